@@ -241,6 +241,7 @@ structure StepOut where
   res : Except Exc (Option Val)
   events : List Event := []
   hookExc : Nat := 0          -- exceptions raised inside notification handlers (swallowed and logged)
+  broken : Bool := false      -- the operation raised *after* it had changed the object (`del` of a prototyped value)
 
 def fail (p : Pool) (e : Exc) : StepOut := { pool := p, res := .error e }
 
@@ -286,7 +287,7 @@ def relink (p : Pool) (o : ObjId) (n : Name) (d : DelegInfo) (evs : List Event) 
   | some _ => { pool := p, res := .ok none, events := evs }
   | none =>
     match hook p o n d with
-    | (_, true) => { pool := p, res := .error .traitError, events := evs }
+    | (_, true) => { pool := p, res := .error .traitError, events := evs, broken := true }
     | (h, false) => { pool := p.setFwd o n (some h), res := .ok none, events := evs }
 
 /-- `_remove_trait_delegate_listener(n, True)` (has_traits.py:3385-3401). -/
@@ -324,7 +325,7 @@ def setDefer (E : Env) (k : Nat) (p : Pool) (o : ObjId) (n : Name) (d : DelegInf
         | some old =>
           let p1 := p.setDict o n none
           match read p1 p1.fuel o n with                                  -- ctraits.c:2417
-          | .error e => { pool := p1, res := .error e }
+          | .error e => { pool := p1, res := .error e, broken := true }
           | .ok cur => relink p1 o n d (if old ≠ cur then notify p1 p1.fuel o n old cur else [])
       | _, some v => { pool := unlink (p.setDict o n (some v)) o n, res := .ok none }
       | _, none =>
